@@ -134,7 +134,8 @@ def brute_force_implicit_usage(root) -> tuple[dict[int, tuple[Any, dict[int, tup
 class GraphLike:
     """A graph-like under extraction with everything the oracle needs, recomputed from the containers."""
 
-    def __init__(self, obj, kind: str, ref: list, *, enclosing_defined: set[int] | None = None):
+    def __init__(self, obj, kind: str, ref: list, *, enclosing_defined: set[int] | None = None,
+                 enclosing_inits: dict[int, ir.Value] | None = None):
         self.obj = obj
         self.kind = kind  # 'graph' | 'function' | 'nested' | 'view' | 'subview'
         self.ref = ref
@@ -170,6 +171,14 @@ class GraphLike:
         # does the graph-like use values that it does not define (captures of an enclosing scope / dangling)?
         self.free = {k: t for k, t in self.scope.captured.items()}
         self.enclosing_defined = enclosing_defined or set()
+        # Graph objects that occur more than once in the scope tree (one Graph referenced by several attributes)
+        occ: dict[int, int] = defaultdict(int)
+        for sc in self.scope.walk():
+            occ[id(sc.graph)] += 1
+        self.shared_graph_ids = {k for k, v in occ.items() if v > 1}
+        # initializers (by container) of the graphs that enclose a nested graph-like: a region that uses one of
+        # them needs that initializer like one of its own
+        self.enclosing_inits: dict[int, ir.Value] = dict(enclosing_inits or {})
 
     def deps(self, node: ir.Node) -> list[tuple[ir.Value, str]]:
         """(value, reason) the node depends on: direct inputs and values captured by its nested graphs at any
@@ -189,7 +198,7 @@ class GraphLike:
 
 
 class Closure:
-    __slots__ = ("nodes", "why", "inits", "init_why", "uncovered", "unc_why", "unc_kind", "sorted_ok", "seen")
+    __slots__ = ("nodes", "why", "inits", "init_why", "uncovered", "unc_why", "unc_kind", "sorted_ok", "seen", "outer_inits")
 
     def __init__(self):
         self.nodes: list[ir.Node] = []  # in ORIGINAL order
@@ -201,6 +210,7 @@ class Closure:
         self.unc_kind: dict[int, str] = {}
         self.sorted_ok = True
         self.seen: set[int] = set()
+        self.outer_inits: set[int] = set()  # ids of needed initializers that are declared in an enclosing graph
 
     @property
     def covered(self) -> bool:
@@ -225,6 +235,10 @@ def closure(gl: GraphLike, cut_inputs: list[ir.Value], cut_outputs: list[ir.Valu
         elif vid in gl.init_ids:
             c.inits[vid] = v
             c.init_why[vid].add(reason)
+        elif vid in gl.enclosing_inits and gl.kind == "nested":
+            c.inits[vid] = v
+            c.init_why[vid].add(reason)
+            c.outer_inits.add(vid)
         else:
             c.uncovered[vid] = v
             c.unc_why[vid].add(reason)
